@@ -1,5 +1,5 @@
 (* C22 — property theorems only. *)
-From SwayV Require Import Base.Util C22.Model C22.Spec C22.Proofs.
+From SwayV Require Import Base.Util C22.Model C22.Spec C22.Proofs C22.Complete.
 
 (* An order that planning returns lists every package exactly once, every
    dependency before all of its dependents (any fuel, so in particular the
@@ -14,6 +14,20 @@ Theorem C22_cyclic_rejected : forall g fuel o,
   wf_graph g -> cyclic g -> toposort_fuel fuel g <> TopoOk o.
 Proof. exact cyclic_never_ok. Qed.
 Print Assumptions C22_cyclic_rejected.
+
+(* For every acyclic package graph planning produces an order, and that order lists every
+   package exactly once with every dependency before all of its dependents. *)
+Theorem C22_acyclic_gets_valid_order : forall g,
+  wf_graph g -> ~ cyclic g -> exists o, compilation_order g = TopoOk o /\ valid_order g o.
+Proof. exact acyclic_gets_valid_order. Qed.
+Print Assumptions C22_acyclic_gets_valid_order.
+
+(* For every cyclic graph planning fails with the cycle error (the model's default fuel always
+   suffices, so the only remaining outcome is the error). *)
+Theorem C22_cyclic_gets_error : forall g,
+  wf_graph g -> cyclic g -> exists n, compilation_order g = TopoCycle n.
+Proof. exact cyclic_gets_error. Qed.
+Print Assumptions C22_cyclic_gets_error.
 
 (* Oracles used on the implementation's outputs. *)
 Theorem C22_order_oracle_sound : forall g o, valid_orderb g o = true -> valid_order g o.
